@@ -4,6 +4,7 @@ import (
 	"fmt"
 
 	"github.com/hashicorp/hcl-lang/reference"
+	"github.com/hashicorp/hcl-lang/schema"
 	"github.com/hashicorp/hcl/v2/hclsyntax"
 )
 
@@ -96,4 +97,43 @@ func elemRangeOracle(run *Run, sc *Scenario, ts reference.Targets, loc map[strin
 			}
 		}
 	}
+}
+
+// targetableOracle: every Targetable the static body of a written block declares yields a target with
+// that address and scope on the block's own extent - whatever dependent body is also in force
+func targetableOracle(run *Run, sc *Scenario, ts reference.Targets, loc map[string]interface{}) {
+	f := sc.Main.Ctx.Files[sc.File]
+	if f == nil {
+		return
+	}
+	body, ok := f.Body.(*hclsyntax.Body)
+	if !ok {
+		return
+	}
+	q := Query{Name: "CollectReferenceTargets"}
+	walkBlocks(body, sc.Main.Schema, 0, func(b *hclsyntax.Block, bsch *schema.BlockSchema, merged *schema.BodySchema, res int, depth int) {
+		if bsch.Body == nil {
+			return
+		}
+		for _, tb := range bsch.Body.TargetableAs {
+			if tb == nil {
+				continue
+			}
+			run.Res.Hypotheses["static_targetables_checked"]++
+			if len(bsch.DependentBody) > 0 {
+				run.Res.Hypotheses["static_targetables_with_dependent_bodies"]++
+			}
+			found := false
+			for _, t := range ts {
+				if t.Addr.String() == tb.Address.String() && t.ScopeId == tb.ScopeId && t.RangePtr != nil && *t.RangePtr == b.Range() {
+					found = true
+					break
+				}
+			}
+			if !found {
+				run.Violate(Violation{Key: "C09/static-targetable-without-target", Rule: "for every block the schema marks addressable (targetable-as) a target is collected on the block's extent",
+					Func: "CollectReferenceTargets", Detail: fmt.Sprintf("block %s %v: no target %s (scope %s) on %v", b.Type, b.Labels, tb.Address.String(), tb.ScopeId, b.Range()), Replay: locWith(loc, q)})
+			}
+		}
+	})
 }
